@@ -404,7 +404,7 @@ func RunC04(c *Ctx) {
 		}
 	}
 	idx = e.explicitRanges(idx, false)
-	n := c.N(2500, 150000)
+	n := c.N(4000, 150000)
 	for i := 0; i < n; i++ {
 		if c.Mine(idx) {
 			e.randomScenario("random", idx, c.Seed)
